@@ -151,6 +151,8 @@ def run_real(case, root, cwd):
             return {"res": "missing"}
         except Exception as e:  # noqa
             s = str(e)
+            if "maximum recursion depth" in s:     # RecursionError re-wrapped by NeuroMLLoader as a plain Exception
+                return {"res": "outOfFuel"}
             if "Unrecognised extension" in s:
                 return {"res": "badExt"}
             if isinstance(e, (OSError, IOError)) or "does not exist" in s or "No such file" in s:
